@@ -1,5 +1,6 @@
 (** C04 — pinned statements (MQTT 3.1.1 part).  Only [Theorem .. exact ..]. *)
 From Rumqtt Require Import Codec.Wire Codec.V4 Codec.WireProofs Codec.V4Proofs.
+From Rumqtt Require Import Codec.V5Props Codec.V5 Codec.V5PropsProofs Codec.V5TotalProofs Codec.V5Proofs.
 
 Theorem c04_length_write_remaining : forall n r, n <= 268435455 ->
   exists bs, write_remaining_length n = Ok bs /\ len bs = len_len n /\
@@ -78,3 +79,70 @@ Proof. exact asym_suback_constructors. Qed.
 Theorem c04_broker_connack_unreachable :
   write Broker 0 (ConnAck false 6) = Panic P_UNREACHABLE /\ wf_v4 Broker (ConnAck false 6) = false.
 Proof. exact broker_connack_unreachable. Qed.
+
+Theorem c04_read_props_write_v5 : forall tab ps rest,
+  repr_props tab ps = true ->
+  (match ps with Some [] => true | _ => wf_props tab ps end) = true ->
+  exists bs, write_props tab ps = Ok bs /\ len bs = props_len tab ps /\
+             read_props 0 tab (bs ++ rest) = Ok (match ps with Some [] => None | _ => ps end, rest).
+Proof. exact read_props_write. Qed.
+
+Theorem c04_rt_v5 : forall fl p maxo, wf5 fl p = true ->
+  (fl = Client -> forall mx, maxo = Some mx -> size5 p <= mx) ->
+  exists bs, write5 fl maxo p = Ok (bs, size5 p) /\ len bs = size5 p /\
+    forall max rest, plen5 p <= eff_max max -> read5 fl (bs ++ rest) max = Packet (norm5 fl p) rest.
+Proof. exact rt_v5. Qed.
+
+Theorem c04_interop_v5 : forall fl1 fl2 p maxo, wf5 fl1 p = true ->
+  (fl1 = Client -> forall mx, maxo = Some mx -> size5 p <= mx) ->
+  exists bs, write5 fl1 maxo p = Ok (bs, size5 p) /\
+    forall max rest, plen5 p <= eff_max max -> read5 fl2 (bs ++ rest) max = Packet (norm5 fl2 p) rest.
+Proof. exact interop_v5. Qed.
+
+Theorem c04_write_client_too_large_v5 : forall p mx, repr5 Client p = true -> mx < size5 p ->
+  write5 Client (Some mx) p = Err OutgoingPacketTooLarge.
+Proof. exact write5_client_too_large. Qed.
+
+Theorem c04_wf_examples_v5 :
+  forallb (fun p => wf5 Client p && wf5 Broker p)
+    [ex5_connect; ex5_connack; ex5_publish; PubAck5 1 0 None; PubAck5 1 0 (Some []); PubRec5 255 145 None;
+     PubRel5 256 146 (Some [(31, VStr [120])]); PubComp5 65535 0 (Some [(38, VPair [107] [118])]);
+     ex5_subscribe; SubAck5 9 [RcSuccess ExactlyOnce; RcFailure; RcOther 162] None; Unsubscribe5 2 [[97; 47; 43]; []] (Some [(38, VPair [] [])]);
+     UnsubAck5 9 [0; 17; 145] None; PingReq5; PingResp5; Disconnect5 0 None;
+     Disconnect5 142 (Some [(17, VU32 9); (31, VStr [98; 121; 101]); (28, VStr [111])])] = true
+  /\ wf5 Broker ex5_suback_router = true /\ wf5 Client ex5_suback_router = false
+  /\ wf5 Client (recode Client ex5_suback_router) = true.
+Proof. exact wf5_examples. Qed.
+
+Theorem c04_rt_v5_subscription_ids_refuted :
+  wf5 Client ex5_subids = true /\ wf5 Broker ex5_subids = true /\
+  exists bs, write5 Client None ex5_subids = Ok (bs, 16) /\
+    read5_gen unfixed Client bs None =
+      Packet (Publish5 false AtMostOnce false [116] 0 [3; 0; 0; 120] (Some [(11, VVarInt 1); (11, VVarInt 2); (11, VVarInt 3)])) [] /\
+    read5_gen unfixed Broker bs (Some 100) = read5_gen unfixed Client bs None /\
+    read5 Client bs None = Packet ex5_subids [] /\ read5 Broker bs (Some 100) = Packet ex5_subids [].
+Proof. exact rt_v5_subscription_ids_refuted. Qed.
+
+Theorem c04_rt_v5_disconnect_refuted :
+  wf5 Client (Disconnect5 0 None) = true /\ write5 Client None (Disconnect5 0 None) = Ok ([224; 0], 2) /\
+  read5_gen unfixed Client [224; 0] None = Malformed PayloadRequired [] /\
+  read5_gen unfixed Broker [224; 0] (Some 100) = Packet (Disconnect5 0 None) [] /\
+  read5 Client [224; 0] None = Packet (Disconnect5 0 None) [].
+Proof. exact rt_v5_disconnect_refuted. Qed.
+
+Theorem c04_asym_suback_constructors_v5 :
+  exists bs, write5 Broker None (SubAck5 7 [RcSuccess AtLeastOnce; RcFailure] None) = Ok (bs, 7) /\
+    read5 Client bs None = Packet (SubAck5 7 [RcSuccess AtLeastOnce; RcUnspecified] None) [] /\
+    read5 Broker bs (Some 100) = Packet (SubAck5 7 [RcQoS AtLeastOnce; RcUnspecified] None) [].
+Proof. exact asym5_suback_constructors. Qed.
+
+Theorem c04_asym_empty_properties_v5 :
+  write5 Client None (PubAck5 5 0 (Some [])) = Ok ([64; 4; 0; 5; 0; 0], 6) /\
+  write5 Client None (PubAck5 5 0 None) = Ok ([64; 2; 0; 5], 4) /\
+  read5 Client [64; 4; 0; 5; 0; 0] None = Packet (PubAck5 5 0 None) [].
+Proof. exact asym5_empty_properties. Qed.
+
+Theorem c04_asym_connack_v4_codes_v5 :
+  write5 Client None (ConnAck5 false 2 None) = Panic P_UNREACHABLE /\ write5 Broker None (ConnAck5 false 1 None) = Panic P_UNREACHABLE
+  /\ write5 Broker None (ConnAck5 false 2 None) = Err Unrepresentable /\ wf5 Client (ConnAck5 false 2 None) = false.
+Proof. exact asym5_connack_v4_codes. Qed.
